@@ -29,6 +29,11 @@ type XProp struct {
 	IsF      bool
 	Bits     int
 	Long     bool // value longer than the reader's window: an error, and the field stays zero or right
+	// NoJudge: a legal form of the value that a reader may not understand (a date of reduced
+	// precision): what is reported for it is not judged; everything around it still is
+	NoJudge bool
+	// Solo: an empty array written as an empty-element tag (<rdf:Bag/>)
+	Solo bool
 }
 
 type XRecord struct {
@@ -94,6 +99,13 @@ func canonT(t time.Time) string {
 // digits and no zone, plain.
 func drawXDate(l *core.Lane) (text, want string) {
 	text, want = drawXDateBase(l)
+	if x := XDateExtra; x != nil && x.Chance(1, 8) {
+		// the XMP date format allows reduced precision: YYYY, YYYY-MM, YYYY-MM-DD, YYYY-MM-DDThh:mmTZD
+		y, mo, d, h, mi := 1971+x.Intn(120), 1+x.Intn(12), 1+x.Intn(28), x.Intn(24), x.Intn(60)
+		text = []string{fmt.Sprintf("%04d", y), fmt.Sprintf("%04d-%02d", y, mo), fmt.Sprintf("%04d-%02d-%02d", y, mo, d),
+			fmt.Sprintf("%04d-%02d-%02dT%02d:%02d", y, mo, d, h, mi), fmt.Sprintf("%04d-%02d-%02dT%02d:%02d+01:00", y, mo, d, h, mi)}[x.Intn(5)]
+		return text, "*"
+	}
 	if x := XDateExtra; x != nil && x.Chance(1, 3) {
 		// further shapes of the XMP date format (YYYY-MM-DDThh:mm:ss.sTZD): a fraction of 1..9
 		// digits, with or without a zone designator
@@ -194,7 +206,7 @@ func DrawXRecord(l *core.Lane, long bool) *XRecord {
 	datep := func(ns, name, path string, p int) {
 		if l.Intn(100) >= 100-p {
 			t, w := drawXDate(l)
-			add(&XProp{NS: ns, Name: name, Val: t, Path: path, Want: w})
+			add(&XProp{NS: ns, Name: name, Val: t, Path: path, Want: w, NoJudge: w == "*"})
 		}
 	}
 	biasp := func(ns, name, path string, p int) {
@@ -236,6 +248,10 @@ func DrawXRecord(l *core.Lane, long bool) *XRecord {
 			x := &XProp{NS: ns, Name: name, Array: kind, Path: path}
 			for i := 0; i < n; i++ {
 				x.Items = append(x.Items, xmlText(l, 1+l.Intn(60)))
+			}
+			if e := XDateExtra; e != nil && e.Chance(1, 6) {
+				x.Items = nil // an empty array, written with an end tag or as an empty-element tag
+				x.Solo = e.Bool()
 			}
 			add(x)
 		}
@@ -478,6 +494,10 @@ func (r *XRecord) Serialise(l *core.Lane, st XStyle) []byte {
 			tag := p.NS + ":" + p.Name
 			if p.Array == "" {
 				sb.WriteString("<" + tag + gt() + p.Val + "</" + tag + gt() + ws(0))
+				continue
+			}
+			if p.Solo && len(p.Items) == 0 {
+				sb.WriteString("<" + tag + gt() + ws(0) + "<rdf:" + p.Array + "/>" + ws(0) + "</" + tag + gt() + ws(0))
 				continue
 			}
 			sb.WriteString("<" + tag + gt() + ws(0) + "<rdf:" + p.Array + gt() + ws(0))
